@@ -6,6 +6,7 @@ CONSTANTS Coef <- C2
  MaxD = 1
  MaxSteps = 2
  SubA <- A2
+ LimC <- L1
  SubB <- S1
 INVARIANT SameValueInv
 INVARIANT SameValueOp
